@@ -552,6 +552,13 @@ class ScenarioGen:
                 if self.cyc([True, False]):
                     a = r.uniform(-math.pi, 1.0)
                     kw["orientation"] = AngleInterval(a, a + r.choice([0.1, 0.5, 1.0, 2.0]))
+                    if self.cyc([False, True, False]):
+                        # "any heading": an interval just short of the full circle, its ends given with one decimal more than
+                        # the writer of this case keeps (what is written must still be shorter than 2 pi)
+                        k_ = 2 + self.i % 12
+                        b_ = math.floor(math.pi * 10 ** k_) / 10 ** k_
+                        kw["orientation"] = AngleInterval(-b_, b_)
+                        self.feat("goal.orientation.almost-full-circle")
                 if self.cyc([True, False, True]):
                     v = abs(self.real(30))
                     kw["velocity"] = Interval(v, v + round(r.uniform(0, 10), 6))
